@@ -42,6 +42,8 @@ def to_z3(val, env):
         return env.setdefault(("in", val[1]), z3.Real(f"x[{val[1]}]"))
     if h == "ones":
         return z3.RealVal(1)
+    if h == "coslat":
+        return env.setdefault(val, z3.Real("coslat"))
     if h in ("mean", "std", "var"):
         return env.setdefault(val, z3.Real(f"{h}{len(env)}"))
     if h == "clip":
@@ -76,7 +78,7 @@ def trace_struct(sample, feature, order, multiindex=(), flags=None, nlist=1):
 
     def run():
         p = Preprocessor(sample_name=S, feature_name=F, check_nans=flags.get("check_nans", False), with_center=flags.get("center", True),
-                         with_std=flags.get("std", False), compute=True)
+                         with_std=flags.get("std", False), with_coslat=flags.get("coslat", False), compute=True)
         Xs = [mk_input(f"X{i}" if nlist > 1 else "X", sample, feature, order=order, multiindex=multiindex, feature_tag=f"fit{i}" if nlist > 1 else "fit")
               for i in range(nlist)]
         if nlist > 1:
@@ -88,7 +90,11 @@ def trace_struct(sample, feature, order, multiindex=(), flags=None, nlist=1):
                     x._coords[d] = LCoord(d, cid, Xs[0]._ext[d], Xs[0]._coords[d].index_kind, Xs[0]._coords[d].levels)
                     x._ext[d] = Xs[0]._ext[d]
         X = Xs if nlist > 1 else Xs[0]
-        X2 = p.fit_transform(X, tuple(sample))
+        W = None
+        if flags.get("weights"):
+            fd = [d for d in Xs[0].dims if d not in sample]
+            W = LDA(("in", "W"), fd, {d: Xs[0]._ext[d] for d in fd}, {d: Xs[0]._coords[d] for d in fd}, False, "user-input")
+        X2 = p.fit_transform(X, tuple(sample), W)
         back = p.inverse_transform_data(X2)
         comps = LDA(("in", "P"), (F, "mode"), {F: X2._ext[F], "mode": named_ext("k")},
                     {F: X2._coords[F], "mode": LCoord("mode", CoordId("modes"), named_ext("k"))})
@@ -165,8 +171,10 @@ def deductive(res, agg):
                     s = z3.Solver()
                     s.set("timeout", 10000)
                     for k_, v_ in env.items():
-                        if isinstance(k_, tuple) and k_[0] == "std":
+                        if isinstance(k_, tuple) and k_[0] in ("std", "coslat"):
                             s.add(v_ > 0)
+                        if k_ == ("in", "W"):
+                            s.add(v_ != 0)
                     s.add(e != x)
                     r = s.check()
                     agg.vc(fn, "values equal the input at every label (generic element, all flags)",
